@@ -242,6 +242,24 @@ _big_lib = Contract(
                      {'names': ['acme', '_vendor', 'pandas', 'compat']}, {'names': ['mymod']}],
 )
 
+def _replay_header(inp):
+    """goto on a name used in a header (default of a def / lambda parameter, base class, annotation): the binding
+    consulted is the one of the ENCLOSING scope, never the definition's own parameter or name"""
+    from pyvc.replay import run_real
+    import jedi
+    out = run_real(lambda: sorted((n.line, n.column) for n in jedi.Script(inp['code']).goto(*inp['pos'])))
+    return {'EXPECTED': [tuple(inp['expected'])]}, out
+
+
+_HEADER_LIB = [
+    {'code': 'def f():\n    scale = 5\n    g = lambda scale=scale: scale\n    return g\n', 'pos': (3, 21), 'expected': (2, 4)},
+    {'code': 'first = 1\nh = lambda first=first: first\n', 'pos': (2, 17), 'expected': (1, 0)},
+    {'code': 'def outer():\n    for i in range(3):\n        yield lambda i=i: i\n', 'pos': (3, 23), 'expected': (2, 8)},
+    {'code': 'size = 3\ndef f(size=size):\n    return size\n', 'pos': (2, 11), 'expected': (1, 0)},
+    {'code': 'a = 1\ndef f(a, b=a):\n    return b\n', 'pos': (2, 11), 'expected': (1, 0)},
+    {'code': 'class Base: pass\nclass Base(Base):\n    pass\n', 'pos': (2, 11), 'expected': (1, 6)},
+]
+
 _ANC = 'name_or_none.search_ancestor("funcdef", "classdef", "lambdef")'
 _header_rule = Contract(
     id='C03._get_global_filters_for_name', prop='C03',
@@ -263,6 +281,8 @@ _header_rule = Contract(
     ],
     notes='get_global_filters (under contract above) is an abstract pure callee here; a definition node has at least '
           'two children, the last but one being its colon (parso shape, stated on search_ancestor)',
+    witness={}, replay=_replay_header, concrete_only=True, witness_library=_HEADER_LIB,
+    concrete_ensures=['result == EXPECTED'],
 )
 
 FAMILIES = [
